@@ -75,8 +75,8 @@ const (
 	EOkCompat
 	EOkStruct
 	EOkSer
-	EOkUniqLive // a uniqueness-checking call on the live index succeeded
-	EOkUniqTemp // a uniqueness-checking call on a scratch index succeeded
+	EOkUniqLive   // a uniqueness-checking call on the live index succeeded
+	EOkUniqTemp   // a uniqueness-checking call on a scratch index succeeded
 	EOkAcceptTemp // an accepting (checking and inserting) call on a scratch index succeeded
 	// sentinel error sources (value flows towards a return)
 	EErrUnique
@@ -94,11 +94,11 @@ const (
 	EErrNotIndexed
 	EErrOther
 	// derived effects
-	ECanon        // a call to the case-transform routine (closure has CASE and no object hook) returned
-	EDirty        // live index / settings changed since the last schema commit (set by IDX.w(live)/CFG.w, cleared by FS.write(schema))
-	ECallDelCache // a store-delete call on the cache store was made
-	ECallDelPend  // a store-delete call on the pending store was made
-	ECallUnindex  // an index-delete call on the live index was made
+	ECanon         // a call to the case-transform routine (closure has CASE and no object hook) returned
+	EDirty         // live index / settings changed since the last schema commit (set by IDX.w(live)/CFG.w, cleared by FS.write(schema))
+	ECallDelCache  // a store-delete call on the cache store was made
+	ECallDelPend   // a store-delete call on the pending store was made
+	ECallUnindex   // an index-delete call on the live index was made
 	ECallFlushPend // a flush call on the pending store (or one of its maps) was made
 	ECallCommit    // a call of the schema-commit family (closure encodes and writes the schema file) was made
 	ECallGetCache  // a lookup call on the cache store was made
@@ -177,20 +177,20 @@ func (s EffSet) String() string {
 type Tag uint32
 
 const (
-	TFresh   Tag = 1 << iota // this very object was allocated in the current call tree
-	TDecoded                 // filled by json.Unmarshal in the current call tree (everything reachable is new)
-	TLive                    // reachable from Schema.ObjectIndex
-	TCache                   // reachable from DB.cache
-	TPend                    // reachable from DB.asyncw
-	TTbl                     // the schema table map
-	TSchemaPath              // string derived from the SchemaFilename constant
-	TObjName                 // string derived from an object's UUID() / schema extension (object file name)
-	TFromTbl                 // *Schema obtained from the schema table
-	TSchemaVal               // value is / derives from a *Schema
-	TParamObj                // caller-supplied Object
-	TSchemaFields            // the descriptor map loaded from Schema.Fields
-	TWitness                 // the object a schema keeps as type witness (Schema.object)
-	TSearchFields            // derived from the result slice of a Search (load of Search.fields, appends to it)
+	TFresh        Tag = 1 << iota // this very object was allocated in the current call tree
+	TDecoded                      // filled by json.Unmarshal in the current call tree (everything reachable is new)
+	TLive                         // reachable from Schema.ObjectIndex
+	TCache                        // reachable from DB.cache
+	TPend                         // reachable from DB.asyncw
+	TTbl                          // the schema table map
+	TSchemaPath                   // string derived from the SchemaFilename constant
+	TObjName                      // string derived from an object's UUID() / schema extension (object file name)
+	TFromTbl                      // *Schema obtained from the schema table
+	TSchemaVal                    // value is / derives from a *Schema
+	TParamObj                     // caller-supplied Object
+	TSchemaFields                 // the descriptor map loaded from Schema.Fields
+	TWitness                      // the object a schema keeps as type witness (Schema.object)
+	TSearchFields                 // derived from the result slice of a Search (load of Search.fields, appends to it)
 )
 
 const closedTags = TDecoded | TLive | TCache | TPend | TSchemaPath | TObjName | TParamObj | TSearchFields // closed under loads
@@ -530,6 +530,18 @@ func staticEffects(p *Prog, in ssa.Instruction) EffSet {
 						}
 					}
 				}
+			}
+		}
+	}
+	// a case mapping handed around as a function value (mapString(v, strings.ToUpper)) changes case wherever it ends up
+	{
+		var ops []*ssa.Value
+		for _, op := range in.Operands(ops) {
+			if op == nil || *op == nil {
+				continue
+			}
+			if f, ok := (*op).(*ssa.Function); ok && classifyExternal(f) == xToUpperLower {
+				s = s.With(ECase)
 			}
 		}
 	}
